@@ -11,11 +11,14 @@ variable exactly in order to be detected", differentiate_term docstring), so a v
 that occurs *inside* a function factor (``log(a)`` w.r.t. ``a``) is outside what the
 property can demand without sympy: such terms are UNSPEC unless the result is zero for a
 reason that does not depend on the function (some other wrt variable is absent).
+A literal numeric factor (``2`` in ``2:a``) is a constant: it is never a variable and it
+stays in the term, so d(2:a)/da = ``2`` ("1" only if *nothing* remains).
 """
 import math
 import re
 
 _FUNC = re.compile(r"^[A-Za-z_][A-Za-z_0-9.]*\((.*)\)$")
+_LITERAL = re.compile(r"^(\d+\.?\d*|\.\d+)$")
 
 
 def split_term(s):
@@ -78,7 +81,11 @@ def column(factors, data):
     out = [1.0] * n
     for f in factors:
         inner = inner_variable(f)
-        if inner is None:
+        if f in data:  # a plain column, or a precomputed pseudo-column such as a fitted "center(a)"
+            vals = data[f]
+        elif _LITERAL.match(f):  # a literal numeric factor scales the term
+            vals = [float(f)] * n
+        elif inner is None:
             vals = data[f]
         elif f.startswith("log("):
             vals = [math.log(x) for x in data[inner]]
